@@ -8,6 +8,7 @@ import (
 	"os"
 	"runtime/debug"
 
+	"verif/internal/c04"
 	"verif/internal/c11"
 	"verif/internal/mach"
 	"verif/internal/wire"
@@ -30,6 +31,8 @@ func main() {
 		o = c11.Run(*seed, *n, 40)
 	case "c11-long":
 		o = c11.Run(*seed, *n, 300)
+	case "c04":
+		o = c04.Run(*seed, *n, 30)
 	case "mach":
 		o = mach.RunRandom("mach", *seed, *n, 60, nil)
 	default:
